@@ -418,10 +418,10 @@ def worker(ctx, job):
 
 def run(ctx):
     jobs = [{"kind": "exhaustive", "kinds": [k], "part": p, "parts": 4} for k in KINDS for p in range(4)]
-    n = ctx.pick(6000, 240000)
+    n = ctx.pick(6000, 1000000)
     per = ctx.pick(600, 5000)
     jobs += [{"kind": "random", "n": per} for _ in range(n // per)]
-    ctx.shard(jobs, timeout=ctx.pick(90, 340))
+    ctx.shard(jobs, timeout=ctx.pick(90, 1500))
     ctx.exhaustive = True
     ctx.extra["exhaustive_scope"] = "all 3-step histories over %d clock moves x 8 operations for each of the 5 timer kinds" % ctx.pick(4, 5)
     ctx.floor("exhaustive_histories", 5 * ctx.pick(32, 40) ** 3)
